@@ -142,3 +142,27 @@ claim('C12', 'exploration',
       'character may be kept or replaced.',
       'runtime monitoring: defect planting with a documentation-derived recovery oracle',
       'DESIGN.md section 4, C12')
+
+claim('C02', 'exploration',
+      'CIFs built through the API from seeded abstract content (blocks, nested frames, scalars, loops with categories, '
+      'lists / tables to depth 2) whose strings are boundary-biased - lengths 2038..2052 and 4090..4100, lines of '
+      '2046..2049, both quote kinds, triple-quote and text-terminator look-alikes, fold / prefix marker look-alikes, '
+      'trailing blanks and backslashes, semicolon runs, supplementary characters at fold points, 2000..2047-character '
+      'names and codes - are written with cif_write, byte-checked (version comment, UTF-8, every line <= 2048 code '
+      'points) and re-parsed; the re-parse must report nothing and be equivalent to the original under exactly the '
+      'tolerances of the statement.  Refusal is accepted only as CIF_DISALLOWED_VALUE for a table key without a quoted form.',
+      'Equivalence ignores loop categories and compares names by normal form.  A key is only required to be writable when '
+      'it also fits the line measured in UTF-16 code units.',
+      'runtime monitoring: write / re-parse round-trip differential with byte-level output monitors under ASan/UBSan',
+      'DESIGN.md section 4, C02')
+
+claim('C13', 'exploration',
+      'As C02 with cif_version = 1 over the CIF 1.1 character set; every fourth CIF carries exactly one planted '
+      'inexpressible element (list, table, newline-semicolon string, non-ASCII / DEL / VT character in a value, name or '
+      'code).  The outcome class is judged against an independent expressibility rule (success on a poisoned CIF unless '
+      'the output round-trips anyway, DISALLOWED_VALUE / DISALLOWED_CHAR without the matching poison, any other code); '
+      'successful output must start with the 1.1 comment, hold only CIF 1.1 characters in lines <= 2048 and re-parse '
+      'as CIF 1.1 with folding and prefix decoding to an equivalent CIF.',
+      'Same equivalence relation as C02.',
+      'runtime monitoring: outcome classification plus round-trip differential for CIF 1.1 output',
+      'DESIGN.md section 4, C13')
